@@ -129,8 +129,8 @@ example : mlsRewrite Config.default.settings
 /-- **Idempotence of the closed model of the whole formatter, decided per input.**  If `s` is formatted to `out` and
     `out` is another layout of the tokens of `s` in the sense of the layout theorem (`layoutPremisesB cfg alnum s out`,
     decidable: same token types and texts - so `s` already has its keywords lower-cased, its comments and directives
-    normalised and its multi-line literals in place -, same blank-line grouping, `GapEqW`, no line comment sharing its
-    line with code, every token written by a first-phase solution), then formatting `out` again returns `out`.
+    normalised and its multi-line literals in place -, same blank-line grouping, `GapEqW`, every token written by a
+    first-phase solution), then formatting `out` again returns `out`.
     A corollary of `C06.C06_format_full_checked`; the driver tallies the premise on every case of the `full` stream
     (`info_c03`).  For inputs whose token texts are not yet normalised, idempotence is decided by the format-twice
     oracle and the `full`/`wsearch` correspondences. -/
